@@ -150,7 +150,7 @@ pub fn universal_client(layout: &Layout, ops: &Vec<Op>)
       //@ C02 | (b) THEOREM C02(b) at every prefix: a key that has a single-key mapping and occurs in no mapping's output is never down on the virtual keyboard
       forall|x: KeyCode| single_unoutput(*layout, x) ==> !m.held_view().contains(x),
     decreases ops.len() - i
-  {
+  { //@ | body
     let ghost out0 = out; let ghost phys0 = phys; let ghost held0 = m.held_view(); let ghost m0 = m;
     match &ops[i] {
       Op::Ev(e) => {
@@ -335,7 +335,7 @@ pub fn universal_client_c05(layout: &Layout, ops: &Vec<Op>)
       //@ C05 | empty layout, history invariant: every key the mapper considers pressed is down on the virtual keyboard
       layout.mappings@.len() == 0 ==> forall|x: KeyCode| #[trigger] m.pressed_view().contains(x) ==> m.held_view().contains(x),
     decreases ops.len() - i
-  {
+  { //@ | body
     let ghost m0 = m; let ghost held0 = m.held_view();
     match &ops[i] {
       Op::Ev(e) => {
@@ -492,7 +492,7 @@ pub fn universal_client_c04(layout: &Layout, ops: &Vec<Op>)
       //@ C04 | history fact: what the mapper considers pressed is physically pressed
       forall|x: KeyCode| #[trigger] m.pressed_view().contains(x) ==> phys.contains(x),
     decreases ops.len() - i
-  {
+  { //@ | body
     let ghost m0 = m; let ghost held0 = m.held_view(); let ghost phys0 = phys;
     match &ops[i] {
       Op::Ev(e) => {
